@@ -171,6 +171,23 @@ pub fn check_query(qc: &QueryCase, si: &SearchInstance, rep: &mut Report) {
     rep.seen("restriction_kinds", kind);
 }
 
+/// add one or two turn-restriction models to an edge-local configuration (a flat combined model when there is more than one)
+fn with_turn_models(rng: &mut Rng, cfg: FrontierCfg, tparts: Vec<FrontierCfg>) -> FrontierCfg {
+    let mut v = match cfg {
+        FrontierCfg::None => vec![],
+        FrontierCfg::Combined(v) => v,
+        other => vec![other],
+    };
+    for t in tparts {
+        v.insert(rng.below(v.len() + 1), t);
+    }
+    if v.len() == 1 {
+        v.remove(0)
+    } else {
+        FrontierCfg::Combined(v)
+    }
+}
+
 fn case(tier: Tier, rng: &mut Rng, rep: &mut Report) {
     let mut p = WorldParams::default();
     p.net.max_v = if tier.thorough { 40 } else { 20 };
@@ -195,21 +212,17 @@ fn case(tier: Tier, rng: &mut Rng, rep: &mut Report) {
         for _ in 0..rng.urange(0, 3) {
             turn_pairs.push((rng.below(net.ne()), rng.below(net.ne())));
         }
-        let tcfg = FrontierCfg::Turn { pairs: turn_pairs };
-        r.cfg = match r.cfg {
-            FrontierCfg::None => tcfg,
-            FrontierCfg::Combined(mut v) => {
-                v.insert(rng.below(v.len() + 1), tcfg);
-                FrontierCfg::Combined(v)
-            }
-            other => {
-                if rng.chance(0.5) {
-                    FrontierCfg::Combined(vec![other, tcfg])
-                } else {
-                    FrontierCfg::Combined(vec![tcfg, other])
-                }
-            }
-        };
+        // sometimes the listed turns come in two files (two turn models inside the combined one)
+        let mut tparts = vec![];
+        if rng.chance(0.2) && turn_pairs.len() >= 2 {
+            let cut = rng.urange(1, turn_pairs.len() - 1);
+            let second = turn_pairs.split_off(cut);
+            tparts.push(FrontierCfg::Turn { pairs: turn_pairs });
+            tparts.push(FrontierCfg::Turn { pairs: second });
+        } else {
+            tparts.push(FrontierCfg::Turn { pairs: turn_pairs });
+        }
+        r.cfg = with_turn_models(rng, r.cfg, tparts);
     }
     world.frontier = r.cfg.clone();
     let query = query_with(&r.query_fields);
@@ -301,21 +314,16 @@ fn app_case(case_no: usize, rng: &mut Rng, rep: &mut Report) {
         }
         if !turn_pairs.is_empty() {
             has_turns = true;
-            let tcfg = FrontierCfg::Turn { pairs: turn_pairs };
-            r.cfg = match r.cfg {
-                FrontierCfg::None => tcfg,
-                FrontierCfg::Combined(mut v) => {
-                    v.insert(rng.below(v.len() + 1), tcfg);
-                    FrontierCfg::Combined(v)
-                }
-                other => {
-                    if rng.chance(0.5) {
-                        FrontierCfg::Combined(vec![other, tcfg])
-                    } else {
-                        FrontierCfg::Combined(vec![tcfg, other])
-                    }
-                }
-            };
+            let mut tparts = vec![];
+            if rng.chance(0.3) && turn_pairs.len() >= 2 {
+                let cut = rng.urange(1, turn_pairs.len() - 1);
+                let second = turn_pairs.split_off(cut);
+                tparts.push(FrontierCfg::Turn { pairs: turn_pairs });
+                tparts.push(FrontierCfg::Turn { pairs: second });
+            } else {
+                tparts.push(FrontierCfg::Turn { pairs: turn_pairs });
+            }
+            r.cfg = with_turn_models(rng, r.cfg, tparts);
         }
     }
     world.frontier = r.cfg.clone();
